@@ -1035,7 +1035,7 @@ impl Model {
         let what = format!("extract({kind:?}, checked={checked}, {by:?}, dest={dest:?})");
         let mut pre = match dest {
             Dest::Absent | Dest::OtherFs | Dest::LongName | Dest::WithSiblings | Dest::LinkOfContent | Dest::SymlinkToContent => DestState::Absent,
-            Dest::Existing | Dest::ExistingSuperset => DestState::File(PREEXISTING.len() as u64, sha256_hex(PREEXISTING)),
+            Dest::Existing | Dest::ExistingSuperset | Dest::ExistingSameLength => DestState::File(PREEXISTING.len() as u64, sha256_hex(PREEXISTING)),
             Dest::Directory => DestState::Other,
         };
         if dest == Dest::Directory {
@@ -1048,7 +1048,7 @@ impl Model {
         }
         // a destination that is a hard link of the content file held the content's bytes
         let mut dest = dest;
-        if dest == Dest::LinkOfContent || dest == Dest::SymlinkToContent || dest == Dest::ExistingSuperset {
+        if dest == Dest::LinkOfContent || dest == Dest::SymlinkToContent || dest == Dest::ExistingSuperset || dest == Dest::ExistingSameLength {
             let a = match by {
                 By::Key(k) => self.entry(ctx.key(k)).and_then(|e| blob::sri_address(&e.integrity)),
                 By::Addr(a) => Some(Self::addr_of(ctx, a)),
@@ -1059,13 +1059,15 @@ impl Model {
                         let mut b = bytes.to_vec();
                         b.extend_from_slice(crate::exec::SUPERSET_TAIL);
                         pre = DestState::File(b.len() as u64, sha256_hex(&b));
+                    } else if dest == Dest::ExistingSameLength {
+                        pre = DestState::File(bytes.len() as u64, sha256_hex(&vec![b'#'; bytes.len()]));
                     } else {
                         pre = DestState::File(bytes.len() as u64, sha256_hex(bytes));
                     }
                     // for what is expected, it is an existing destination
                     dest = Dest::Existing;
                 }
-                _ if dest == Dest::ExistingSuperset => dest = Dest::Existing,
+                _ if dest == Dest::ExistingSuperset || dest == Dest::ExistingSameLength => dest = Dest::Existing,
                 _ => dest = Dest::Absent,
             }
         }
